@@ -81,6 +81,8 @@ fn run(args: &[String]) -> i32 {
                     let mut jobs = jobs_from(if tier == "quick" { families::c02_quick() } else { families::c02_thorough() });
                     if tier != "quick" { jobs.extend(jobs_from(families::c02_quick()).into_iter().map(|j| j.backend(lab::Bk::Sqlite))); }
                     run_e1(jobs, &|cx, rep, _| props_e1::check_c18_pointer(cx, rep), &mut rep);
+                    scripted::c18_own_messages_pointer(&mut rep, lab::Bk::Memory);
+                    scripted::c18_own_messages_pointer(&mut rep, lab::Bk::Sqlite);
                     rep.finish() }
                 "C11" => c11check(tier),
                 "C12" => { let mut rep = Report::new("C12", tier, "fault_enumeration"); rep.rule = "histories on SQLite (application message, proposal, commit, commit with rollback + relay replacement, own create_message / self_update / merge_pending_commit, process + accept welcome); for every API call and every storage tick k of it a child process replays the earlier calls, runs the call and dies by abort() at tick k; the parent reopens the file, loads every group, checks the relay set is the old or the new one, re-offers the interrupted call and all later ones and compares with the uninterrupted run; distinct = distinct (history, call, tick label, k)".into(); crashx::check_c12(&mut rep, tier != "quick"); rep.finish() }
@@ -458,8 +460,10 @@ fn c20(tier: &str) -> i32 {
     let sq: Vec<(scenario::Scenario, bool)> = if tier == "quick" { v.into_iter().take(4).collect() } else { v };
     jobs.extend(jobs_from(sq).into_iter().map(|j| { let mut j = j.backend(lab::Bk::Sqlite); j.with_restart = true; j.regimes = vec![explore::Regime::Causal]; j.members = Some(vec!["Z".into(), "B".into()]); j }));
     run_e1(jobs, &|cx, rep, _| props_e1::check_c20(cx, rep), &mut rep);
-    scripted::c20_ttl(&mut rep, lab::Bk::Sqlite);
-    scripted::c20_ttl(&mut rep, lab::Bk::Memory);
+    scripted::c20_ttl(&mut rep, lab::Bk::Sqlite, None);
+    scripted::c20_ttl(&mut rep, lab::Bk::Memory, None);
+    scripted::c20_ttl(&mut rep, lab::Bk::Sqlite, Some(3600));
+    scripted::c20_most_recent_after_restart(&mut rep);
     scripted::c20_retention_change(&mut rep);
     rep.finish()
 }
@@ -712,11 +716,14 @@ fn c16check(tier: &str) -> i32 {
         j.world_hook = Some(c16_hook);
         // every frontier state keeps a live client: the caps bound memory (reported in the evidence when hit)
         j.max_states = if tier == "quick" { 1500 } else { 6000 };
-        if tier != "quick" {
-            // a fork on SQLite copies the database: one consent mode and a small cap there
+        // a fork on SQLite copies the database: one consent mode and a small cap there (quick: the active recipient only)
+        if tier != "quick" || j.sc.name == "invite" {
             let mut js = j.clone().backend(lab::Bk::Sqlite);
-            js.max_states = 1200;
+            js.max_states = if tier == "quick" { 250 } else { 1200 };
             js.welcome_consent = 1;
+            if tier == "quick" {
+                js.members = Some(vec!["Z".into()]);
+            }
             jobs.push(js);
         }
         jobs.push(j);
@@ -763,6 +770,85 @@ fn c16check(tier: &str) -> i32 {
             rep.finding(
                 format!("C16|failed-accept-left-its-mark|group={state}|welcome={wstate}"),
                 format!("accept_welcome fails ({:?}) after the key package was deleted, yet the group is {state} and the welcome {wstate}", res.err().map(|e| lab::err_variant(&e))),
+                serde_json::json!({"backend": format!("{bk:?}")}),
+            );
+        }
+    }
+    // a stale invitation is declined after the Nostr group id it carries has moved on to another group the user is
+    // active in: declining touches the invitation's own group only
+    for bk in if tier == "quick" { vec![lab::Bk::Memory] } else { vec![lab::Bk::Memory, lab::Bk::Sqlite] } {
+        use mdk_core::prelude::*;
+        let cfg = lab::Cfg::default();
+        let (u, p, q) = (lab::Client::new("U", bk, &cfg), lab::Client::new("P", lab::Bk::Memory, &cfg), lab::Client::new("Q", lab::Bk::Memory, &cfg));
+        let mut ok = true;
+        let mut step = |name: &str, good: bool, rep: &mut Report| {
+            if !good && ok {
+                rep.machinery_errors.push(format!("c16 stale-decline history: step {name} failed"));
+                ok = false;
+            }
+        };
+        let wid = |s: &str| nostr::EventId::from_slice(&scenario::sha2_32(s.as_bytes())).unwrap();
+        // 1. invitation #1 to H while H carries id Z; left unanswered
+        let cfgd = NostrGroupConfigData::new("H".into(), "h".into(), None, None, None, vec![lab::relay("wss://h.example")], vec![p.pk()]);
+        let h = with_mdk!(p, m => m.create_group(&p.pk(), vec![u.key_package_event()], cfgd));
+        let Ok(h) = h else { rep.machinery_errors.push("c16 stale-decline: create H".into()); continue };
+        let hid = h.group.mls_group_id.clone();
+        let z_id = h.group.nostr_group_id;
+        let _ = with_mdk!(p, m => m.merge_pending_commit(&hid));
+        let w1 = with_mdk!(u, m => m.process_welcome(&wid("w1"), &h.welcome_rumors[0]));
+        step("process w1", w1.is_ok(), &mut rep);
+        let Ok(w1) = w1 else { continue };
+        // 2. H moves to id Y and invites the user again
+        let y_id = [0xE7u8; 32];
+        let r = with_mdk!(p, m => m.update_group_data(&hid, mdk_core::groups::NostrGroupDataUpdate::new().nostr_group_id(y_id)));
+        step("rotate H", r.is_ok(), &mut rep);
+        let _ = with_mdk!(p, m => m.merge_pending_commit(&hid));
+        let r = with_mdk!(p, m => m.remove_members(&hid, &[u.pk()]));
+        step("remove U from H", r.is_ok(), &mut rep);
+        let _ = with_mdk!(p, m => m.merge_pending_commit(&hid));
+        let r = with_mdk!(p, m => m.add_members(&hid, &[u.key_package_event()]));
+        step("re-add U to H", r.is_ok(), &mut rep);
+        let _ = with_mdk!(p, m => m.merge_pending_commit(&hid));
+        if let Ok(r) = r {
+            if let Some(rumors) = r.welcome_rumors {
+                let w2 = with_mdk!(u, m => m.process_welcome(&wid("w2"), &rumors[0]));
+                step("process w2", w2.is_ok(), &mut rep);
+            }
+        }
+        // 3. G takes the id H gave up; the user joins G
+        let cfgd = NostrGroupConfigData::new("G".into(), "g".into(), None, None, None, vec![lab::relay("wss://g.example")], vec![q.pk()]);
+        let g = with_mdk!(q, m => m.create_group(&q.pk(), vec![], cfgd));
+        let Ok(g) = g else { rep.machinery_errors.push("c16 stale-decline: create G".into()); continue };
+        let gid2 = g.group.mls_group_id.clone();
+        let r = with_mdk!(q, m => m.update_group_data(&gid2, mdk_core::groups::NostrGroupDataUpdate::new().nostr_group_id(z_id)));
+        step("G takes the id", r.is_ok(), &mut rep);
+        let _ = with_mdk!(q, m => m.merge_pending_commit(&gid2));
+        let r = with_mdk!(q, m => m.add_members(&gid2, &[u.key_package_event()]));
+        step("add U to G", r.is_ok(), &mut rep);
+        let _ = with_mdk!(q, m => m.merge_pending_commit(&gid2));
+        let mut joined = false;
+        if let Ok(r) = r {
+            if let Some(rumors) = r.welcome_rumors {
+                if let Ok(w3) = with_mdk!(u, m => m.process_welcome(&wid("w3"), &rumors[0])) {
+                    joined = with_mdk!(u, m => m.accept_welcome(&w3)).is_ok();
+                }
+            }
+        }
+        step("U joins G", joined, &mut rep);
+        if !ok {
+            continue;
+        }
+        // 4. the stale invitation #1 is declined
+        let before = u.group_obs(&gid2).map(|o| o.record_state).unwrap_or_default();
+        let res = with_mdk!(u, m => m.decline_welcome(&w1));
+        let after = u.group_obs(&gid2).map(|o| o.record_state).unwrap_or_default();
+        let h_after = u.group_obs(&hid).map(|o| o.record_state).unwrap_or_else(|| "none".into());
+        rep.case(&format!("stale-decline|{bk:?}|{}|G:{before}->{after}|H:{h_after}", if res.is_ok() { "ok" } else { "err" }));
+        rep.evaluations += 1;
+        if before == "active" && after != "active" {
+            rep.finding(
+                format!("C16|declining-a-stale-invitation-disabled-another-group|G={after}|H={h_after}"),
+                format!("invitation #1 to H (unanswered) carries the Nostr id that H has since given up and group G (joined, active) has taken; declining it ({}) leaves G {after} and H {h_after}", if res.is_ok() { "Ok" } else { "Err" }),
                 serde_json::json!({"backend": format!("{bk:?}")}),
             );
         }
